@@ -200,3 +200,98 @@ theorem witness_elab {p : Plan} {ar : Arrows} {idx : List Nat} {r : Witnesses} (
     valOfCompact_compact (ht iv hm), Option.pure_def]
 
 end Routes
+
+namespace Routes
+open BM4 Prog
+
+theorem finalizePruned_of_ok {jt : JetTypes} {leak : Bool} {p : Plan} {program : Bool}
+    {cand : Nat → Option Val} {re : RunEnv} {ar : Arrows} {r : Witnesses} {tr : Trace}
+    (hu : routeU jt p program cand = .ok ar r) (hr : trackedRun p ar r re = .ok tr) :
+    finalizePruned jt leak p program cand re =
+      routeP jt leak p program cand (cutOf p (sidesOf re.ids tr.sides)) := by
+  unfold finalizePruned; rw [hu]; simp only; rw [hr]
+
+theorem finalizePruned_of_failed {jt : JetTypes} {leak : Bool} {p : Plan} {program : Bool}
+    {cand : Nat → Option Val} {re : RunEnv} {ar : Arrows} {r : Witnesses} {k : Fail}
+    (hu : routeU jt p program cand = .ok ar r) (hr : trackedRun p ar r re = .failed k) :
+    finalizePruned jt leak p program cand re = .err := by
+  unfold finalizePruned; rw [hu]; simp only; rw [hr]
+
+theorem finalizePruned_of_noTerm {jt : JetTypes} {leak : Bool} {p : Plan} {program : Bool}
+    {cand : Nat → Option Val} {re : RunEnv} {ar : Arrows} {r : Witnesses}
+    (hu : routeU jt p program cand = .ok ar r) (hr : trackedRun p ar r re = .noTerm) :
+    finalizePruned jt leak p program cand re = .illTyped := by
+  unfold finalizePruned; rw [hu]; simp only; rw [hr]
+
+theorem finalizePruned_of_not_ok {jt : JetTypes} {leak : Bool} {p : Plan} {program : Bool}
+    {cand : Nat → Option Val} {re : RunEnv} (hu : ∀ ar r, routeU jt p program cand ≠ .ok ar r) :
+    finalizePruned jt leak p program cand re = routeU jt p program cand := by
+  unfold finalizePruned
+  cases h : routeU jt p program cand with
+  | ok ar r => exact absurd h (hu ar r)
+  | _ => rfl
+
+/-- once `finalize_unpruned` has returned a program, pruning reports neither a witness error nor
+an untypable plan -/
+theorem routeP_of_ok {jt : JetTypes} {leak : Bool} {p : Plan} {program : Bool}
+    {cand : Nat → Option Val} {ar : Arrows} {r : Witnesses} (c : Cut)
+    (hu : routeU jt p program cand = .ok ar r) :
+    routeP jt leak p program cand c ≠ .err ∧ routeP jt leak p program cand c ≠ .illTyped := by
+  unfold routeP
+  rw [hu]
+  simp only
+  cases inferCut jt leak p program c with
+  | ok ar0 => simp only; cases pruneValues ar0 c.keep r <;> simp
+  | _ => simp
+
+end Routes
+
+namespace Routes
+open BM4 Prog
+
+/-- a program returned by `finalizePruned` is the result of `routeP` for some cut -/
+theorem finalizePruned_ok_routeP {jt : JetTypes} {leak : Bool} {p : Plan} {program : Bool}
+    {cand : Nat → Option Val} {re : RunEnv} {ar' : Arrows} {r' : Witnesses}
+    (h : finalizePruned jt leak p program cand re = .ok ar' r') :
+    ∃ c, routeP jt leak p program cand c = .ok ar' r' := by
+  unfold finalizePruned at h
+  cases hu : routeU jt p program cand with
+  | ok ar r =>
+    rw [hu] at h
+    simp only at h
+    cases hr : trackedRun p ar r re with
+    | ok tr => rw [hr] at h; exact ⟨_, h⟩
+    | failed k => rw [hr] at h; cases h
+    | noTerm => rw [hr] at h; cases h
+  | err => rw [hu] at h; cases h
+  | illTyped => rw [hu] at h; cases h
+  | fuel => rw [hu] at h; cases h
+  | panic => rw [hu] at h; cases h
+
+theorem inferCut_size {jt : JetTypes} {leak : Bool} {p : Plan} {program : Bool} {c : Cut} {ar' : Arrows}
+    (h : inferCut jt leak p program c = .ok ar') : ar'.size = p.size := by
+  unfold inferCut at h
+  cases hc : cutConstraints jt leak p program c with
+  | none => rw [hc] at h; cases h
+  | some es =>
+    rw [hc] at h
+    simp only at h
+    cases hu : Inf.unify unifyFuel es [] with
+    | ok S =>
+      rw [hu] at h
+      simp only [InferRes.ok.injEq] at h
+      rw [← h]; simp
+    | clash => rw [hu] at h; cases h
+    | occurs => rw [hu] at h; cases h
+    | fuel => rw [hu] at h; cases h
+
+end Routes
+
+namespace Prog
+
+theorem pruneList_length (S : List (Nat × Bool)) (ids : Nat → Nat) (cm : Nat → Nat) :
+    ∀ (k : Nat) (ns : List Node), (pruneList S ids cm k ns).length = ns.length
+  | _, [] => rfl
+  | k, _ :: ns => by simp [pruneList, pruneList_length S ids cm (k + 1) ns]
+
+end Prog
